@@ -243,6 +243,11 @@ func opValueHist(c Obj) J {
 			inMap[types.String(fmt.Sprintf("k%d", i))] = types.Long(v)
 			inMap["extra"] = types.Long(v)
 			inUIDs[i-1] = uid(v)
+		case "grow_input":
+			v := must(asIntJ(s["v"]))
+			in = append(in, types.Long(v+50))
+			inMap[types.String(fmt.Sprintf("g%d", len(inMap)))] = types.Long(v)
+			inUIDs = append(inUIDs, uid(v+50))
 		case "take_output":
 			outs = append(outs, set.Slice())
 			outMaps = append(outMaps, rec.Map())
